@@ -1,6 +1,7 @@
 /- lemmas: the lmq model (Model/Lmq.lean) refines the bounded FIFO (Spec/Queues.lean) -/
 import NngModel.Model.Lmq
 import NngModel.Proofs.Ring
+import NngModel.Generated.C18
 namespace Nng.Lmq
 open Nng.Ring Nng.QSpec
 
